@@ -23,6 +23,22 @@ import (
 	peer "github.com/libp2p/go-libp2p-core/peer"
 )
 
+// metric names: any string is a legal name, the empty one included (index 0)
+func vC09NameStr(i int) string {
+	if i == 0 {
+		return ""
+	}
+	return "m" + strconv.Itoa(i)
+}
+
+func vC09NameIdx(s string) int {
+	if s == "" {
+		return 0
+	}
+	n, _ := strconv.Atoi(strings.TrimPrefix(s, "m"))
+	return n
+}
+
 const (
 	vC09NPeers = 6
 	vC09NNames = 3
@@ -128,7 +144,7 @@ func vC09Run(c vC09Case) (string, []interface{}, map[string]int) {
 	applyPhi := func() {
 		for n := 0; n < vC09NNames; n++ {
 			for p := 0; p < vC09NPeers; p++ {
-				ms := store.PeerMetricAll("m"+strconv.Itoa(n), peers[p])
+				ms := store.PeerMetricAll(vC09NameStr(n), peers[p])
 				if len(ms) < accrualMetricsNum {
 					continue
 				}
@@ -149,7 +165,7 @@ func vC09Run(c vC09Case) (string, []interface{}, map[string]int) {
 			select {
 			case a := <-checker.Alerts():
 				al := vC09Alert{Peer: vC09PeerIdx(a.Peer)}
-				al.Name, _ = strconv.Atoi(strings.TrimPrefix(a.Name, "m"))
+				al.Name = vC09NameIdx(a.Name)
 				id := "None"
 				if a.Value != "" {
 					v, _ := strconv.Atoi(a.Value)
@@ -168,7 +184,7 @@ func vC09Run(c vC09Case) (string, []interface{}, map[string]int) {
 		o.Peer = vC09Clamp(o.Peer, vC09NPeers)
 		switch o.Op {
 		case "add":
-			m := &api.Metric{Name: "m" + strconv.Itoa(o.Name), Peer: peers[o.Peer], Value: strconv.Itoa(nextID), Valid: o.Valid}
+			m := &api.Metric{Name: vC09NameStr(o.Name), Peer: peers[o.Peer], Value: strconv.Itoa(nextID), Valid: o.Valid}
 			h := vC09Held{m, o.Exp}
 			setExpire(h)
 			held = append(held, h)
@@ -226,7 +242,7 @@ func vC09Run(c vC09Case) (string, []interface{}, map[string]int) {
 			for _, h := range held {
 				setExpire(h)
 			}
-			ms := store.LatestValid("m" + strconv.Itoa(o.Name))
+			ms := store.LatestValid(vC09NameStr(o.Name))
 			ids := []int{}
 			for _, m := range ms {
 				v, _ := strconv.Atoi(m.Value)
